@@ -18,10 +18,12 @@ SPECS = {
     "C13": vec("BumpVerif.Props.C13",
                [("general", 900, 45), ("bounds", 700, 45), ("iters", 500, 45), ("growth", 400, 45), ("zst", 400, 40), ("copy", 300, 40)],
                ["res", "len", "cap", "ids", "moved"], VEC_OPS,
-               quick_release=[("bounds", 300, 45), ("general", 200, 45)], thorough_scale=8,
-               partial=["C13 per-method refinement theorems are proved for the methods listed in Props/C13.lean; "
-                        "methods without a theorem there are covered by the correspondence + std side-by-side run only (see the file's header)",
-                        "drain range bounds: full statement false without overflow checks (F7): C13_drain_partial + C13_drain_counterexample"],
+               quick_release=[("bounds", 300, 45), ("general", 200, 45)], thorough_scale=40,
+               partial=["per-method refinement theorems are proved for: push, pop, insert, remove, swap_remove, truncate, clear, append, "
+                        "split_off, drain (all range forms), retain, drain_filter, into_iter (front/back), reserve family; NOT proved (covered by "
+                        "the correspondence + std side-by-side run only): resize, extend, extend_from_slice(_copy), extend_from_slices_copy, "
+                        "splice, dedup(_by/_by_key), shrink_to_fit, clone, into_boxed_slice, from_iter_in/collect_in, vec!, io::Write",
+                        "the buffer address is not compared here (arena model); capacity values are compared with the model of RawVec"],
                assumptions=["callbacks do not mutate the elements they are shown (&mut T predicates are modelled as pure answers)"]),
     # drop ledger: which destructors ran, in which order, what was handed to the caller
     "C15": vec("BumpVerif.Props.C15",
@@ -29,15 +31,19 @@ SPECS = {
                ["drops", "moved", "ids", "len", "res"],
                ["pop", "remove", "swap_remove", "truncate", "clear", "resize", "drain", "splice", "drain_filter", "retain", "dedup",
                 "dedup_by", "dedup_by_key", "into_iter", "into_bump_slice", "into_boxed", "drop", "append", "split_off", "extend",
-                "clone", "insert", "push"], thorough_scale=8,
-               partial=["ownership preservation is proved for the methods listed in Props/C15.lean; the others are covered by the "
-                        "drop-ledger oracle and the model comparison of drop/move events only"]),
+                "clone", "insert", "push"], thorough_scale=40,
+               partial=["Own preservation is proved for: push, pop, insert, remove, swap_remove, truncate/clear, append, split_off, drain, "
+                        "into_iter, retain, drain_filter, drop, into_bump_slice; NOT proved (drop-ledger oracle + model comparison of the "
+                        "drops/moved sequences only): resize, extend, extend_from_slice, splice, dedup(_by/_by_key), clone, into_boxed_slice, "
+                        "from_iter_in/collect_in, vec!"]),
     # unwinding paths: every callback index as panic point
     "C16": vec("BumpVerif.Props.C16",
                [("panics", 2400, 45), ("iters", 200, 40)],
                ["res", "drops", "moved", "ids", "len"],
                ["retain", "drain_filter", "dedup_by", "dedup_by_key", "resize", "extend", "extend_from_slice", "clone", "splice",
                 "from_iter", "collect_in", "vmacro_n", "truncate", "clear", "drop", "into_iter", "drain", "into_boxed"],
-               quick_release=[("panics", 400, 45)], thorough_scale=8,
-               partial=["full statement false for DrainFilter (F5): C16_drain_filter_counterexample; proved parts are named *_partial in Props/C16.lean"]),
+               quick_release=[("panics", 400, 45)], thorough_scale=40,
+               partial=["full theorems (every callback answer function / panic index): drain_filter, retain, truncate, clear, drop, "
+                        "into_iter and drain dropped with panicking destructors; NOT proved (panic-injection run only): dedup_by(_key), "
+                        "resize / extend_from_slice / clone with a panicking Clone, extend / splice / from_iter_in with a panicking iterator, vec!"]),
 }
